@@ -191,6 +191,10 @@ func checkFrame(f *gen.ProgFunc, cl *stack.Call) string {
 }
 
 // srcParses tells whether the file on disk is syntactically valid Go.
+// declFirstParam matches the opening of a function declaration whose first parameter is p0 (declarations only: a
+// recursive function also *calls* itself with p0 first).
+var declFirstParam = regexp.MustCompile(`(?m)^(func (?:\([^)]*\) )?\w+)\(p0`)
+
 func srcParses(p string) bool {
 	_, err := parser.ParseFile(token.NewFileSet(), p, nil, 0)
 	return err == nil
@@ -233,9 +237,9 @@ func c19Eval(r *core.Run, c *c19Case) {
 		case "shift":
 			_ = os.WriteFile(src, append([]byte("package main\n\n// inserted\n// lines\n// on top\n\nvar shifted = 1\n\n"), bytes.TrimPrefix(orig, []byte("package main\n"))...), 0o644)
 		case "arity":
-			_ = os.WriteFile(src, bytes.ReplaceAll(orig, []byte("(p0 "), []byte("(extra0 string, p0 ")), 0o644)
+			_ = os.WriteFile(src, declFirstParam.ReplaceAll(orig, []byte("${1}(extra0 string, p0")), 0o644)
 		case "arity-int":
-			_ = os.WriteFile(src, bytes.ReplaceAll(bytes.ReplaceAll(orig, []byte("(p0 "), []byte("(extra0 int, p0 ")), []byte("(p0, "), []byte("(extra0 int, p0, ")), 0o644)
+			_ = os.WriteFile(src, declFirstParam.ReplaceAll(orig, []byte("${1}(extra0 int, p0")), 0o644)
 		case "older-short", "older-exact", "older-long":
 			// an older, valid revision of the file that ends right around the line of one of the frames
 			f := bp.prog.Funcs[(c.Idx*7)%len(bp.prog.Funcs)]
@@ -372,7 +376,7 @@ func runC19(r *core.Run) {
 	}
 	np := r.N(100, 1200)
 	mism := []string{"delete", "truncate", "shift", "arity", "syntax", "directory", "symlink", "empty", "other-package", "arity-int", "arity-less", "mutated-trace", "mutated-trace", "arity-int", "older-short", "older-exact", "older-long", "older-short", "older-exact"}
-	nm := r.N(76, 3000)
+	nm := r.N(240, 3000)
 	type job struct{ c c19Case }
 	var jobs []c19Case
 	for _, t := range tools {
